@@ -406,7 +406,15 @@ macro_rules! graph_history {
                     g = g2;
                 }
                 Op::CloneConvert => {
-                    g = convert_roundtrip(g.clone());
+                    // clone_from onto a graph that has (for StableGraph) an edge vacancy and a node vacancy of its own
+                    let mut other: $G<u16, u8, $Ty, $Ix> = $G::with_capacity(0, 0);
+                    let o: Vec<_> = (0..4).map(|k| other.add_node(900 + k)).collect();
+                    let oe: Vec<_> = (0..3).map(|k| other.add_edge(o[k], o[k + 1], 200 + k as u8)).collect();
+                    other.remove_edge(oe[1]);
+                    other.remove_node(o[0]);
+                    other.clone_from(&g);
+                    // either the clone_from result is used as it is, or it also goes through the conversion round trip
+                    g = if ch.pick(&format!("cv{}", i), 1) == 0 { other } else { convert_roundtrip(other) };
                     // conversions compact the indices of a StableGraph with vacancies: re-read by tag/stamp
                     let by_tag: Vec<(u16, u16, u8)> = m.edges.iter().map(|e| (m.nodes.iter().find(|n| n.0 == e.1).unwrap().1, m.nodes.iter().find(|n| n.0 == e.2).unwrap().1, e.3)).collect();
                     resync(&mut m, &by_tag, g.node_indices().map(|n| (n.index(), g[n])).collect(), g.edge_references().map(|r| (r.id().index(), *r.weight())).collect(), &mut bad, i);
@@ -433,6 +441,18 @@ macro_rules! graph_history {
             me.sort();
             if ge != me {
                 bad.push(format!("step {}: edges {:?} expected {:?}", i, ge, me));
+            }
+            {
+                // double-ended iteration describes the same elements
+                let fwd: Vec<usize> = g.edge_indices().map(|e| e.index()).collect();
+                let mut bwd: Vec<usize> = g.edge_indices().rev().map(|e| e.index()).collect();
+                bwd.reverse();
+                let nf: Vec<usize> = g.node_indices().map(|n| n.index()).collect();
+                let mut nb: Vec<usize> = g.node_indices().rev().map(|n| n.index()).collect();
+                nb.reverse();
+                if fwd != bwd || nf != nb {
+                    bad.push(format!("step {}: edge_indices forward {:?} / reversed {:?}; node_indices forward {:?} / reversed {:?}", i, fwd, bwd, nf, nb));
+                }
             }
             if g.edge_indices().count() != m.edges.len() {
                 bad.push(format!("step {}: edge_indices count", i));
@@ -733,6 +753,7 @@ pub fn choice_vars(ops: &[Op]) -> Vec<(String, usize)> {
                     v.push((format!("kn{}_{}", i, t), 1));
                 }
             }
+            Op::CloneConvert => v.push((format!("cv{}", i), 1)),
             Op::RetainEdges => {
                 v.push((format!("ke{}_0", i), 1));
                 v.push((format!("ke{}_1", i), 1));
